@@ -586,7 +586,7 @@ void _mi_error_message(int err, const char* fmt, ...) {
 
 // TODO: implement ourselves to reduce dependencies on the C runtime
 #include <stdlib.h> // strtol
-#include <string.h> // strstr
+#include <string.h> // strcmp
 
 
 static void mi_option_init(mi_option_desc_t* desc) {
@@ -611,11 +611,11 @@ static void mi_option_init(mi_option_desc_t* desc) {
       buf[i] = _mi_toupper(s[i]);
     }
     buf[len] = 0;
-    if (buf[0] == 0 || strstr("1;TRUE;YES;ON", buf) != NULL) {
+    if (buf[0] == 0 || strcmp(buf,"1")==0 || strcmp(buf,"TRUE")==0 || strcmp(buf,"YES")==0 || strcmp(buf,"ON")==0) {
       desc->value = 1;
       desc->init = INITIALIZED;
     }
-    else if (strstr("0;FALSE;NO;OFF", buf) != NULL) {
+    else if (strcmp(buf,"0")==0 || strcmp(buf,"FALSE")==0 || strcmp(buf,"NO")==0 || strcmp(buf,"OFF")==0) {
       desc->value = 0;
       desc->init = INITIALIZED;
     }
